@@ -66,6 +66,8 @@ func NewSys(meta Meta, seed int64, init any) (Sys, error) {
 		return newClientTxnSys(meta, seed, init)
 	case "steps":
 		return newStepsSys(meta, seed, init)
+	case "dispatch":
+		return newDispatchSys(meta, seed, init)
 	case "framer", "bindreply":
 		return newFramerSys(meta, seed, init)
 	}
@@ -340,8 +342,17 @@ func (g *memGen) AllocatePacketConn(c turn.AllocateListenerConfig) (net.PacketCo
 	return conn, a, nil
 }
 
-func (g *memGen) AllocateListener(turn.AllocateListenerConfig) (net.Listener, net.Addr, error) {
-	return nil, nil, errors.New("memGen: no stream relays in this world")
+func (g *memGen) AllocateListener(c turn.AllocateListenerConfig) (net.Listener, net.Addr, error) {
+	g.mu.Lock()
+	defer g.mu.Unlock()
+	g.next++
+	a := &net.TCPAddr{IP: g.ip4, Port: 50000 + g.next}
+	l, err := g.w.Net.ListenTCP(a)
+	if err != nil {
+		return nil, nil, err
+	}
+
+	return l, a, nil
 }
 
 func (g *memGen) AllocateConn(turn.AllocateConnConfig) (net.Conn, error) {
